@@ -292,3 +292,123 @@ pub proof fn lemma_head_step_trans<B>(req: &AmendedRequest<B>, p0: Phase, p1: Ph
     assert(head_from(req, p0) =~= o2.subrange(o0.len() as int, o2.len() as int) + head_from(req, p2));
 }
 ''')
+
+# ------------------------------------------------------------------ Call: construction, analysis, conversions
+RAW('''
+use crate::http::{by_name, first_value, lower, valid_value};
+use crate::client::amended::{spec_analyze, te_chunked, RequestInfo, key_bytes, val_bytes, axiom_key_val_bytes};
+use crate::util::spec_compare_lowercase_ascii;
+use crate::body::{reader_wf, Framing, framing, reader_framing};
+
+/// facts about the string literals the analysis uses (Verus gives literals no byte-level meaning)
+#[verifier::external_body]
+pub proof fn axiom_literals()
+    ensures
+        lower(str_bytes("Host")) == lit("host") && crate::http::valid_name(lit("host")),
+        spec_compare_lowercase_ascii(lit("chunked"), lit("chunked")),
+        forall|i: int| 0 <= i < lit("chunked").len() ==> (32 <= #[trigger] lit("chunked")[i] < 127),
+        lit("host") != lit("content-length") && lit("host") != lit("transfer-encoding") && lit("content-length") != lit("transfer-encoding"),
+{}
+// N9: Error::BadHeader(e.to_string()) for http's InvalidHeaderValue
+#[verifier::external_body]
+pub fn bad_header_value(e: crate::http::InvalidHeaderValue) -> (r: Error) ensures r is BadHeader { unimplemented!() }
+
+/// the Host header the analysis appends (from the effective URI) when the request has none
+pub open spec fn host_part(uri_host: Option<Seq<u8>>, info: RequestInfo) -> Seq<Hdr> {
+    if !info.req_host_header && uri_host is Some { seq![Hdr { name: lit("host"), value: uri_host->Some_0 }] } else { Seq::<Hdr>::empty() }
+}
+/// the framing header that matches a writer mode
+pub open spec fn is_framing_hdr(h: Hdr, mode: SenderMode) -> bool {
+    match mode {
+        SenderMode::Sized(n) => h.name == lit("content-length") && parse_dec_u64(h.value) == Some(n) && valid_value(h.value),
+        _ => h.name == lit("transfer-encoding") && h.value == lit("chunked"),
+    }
+}
+''')
+
+ITEM('impl<B> Call<(), B>')
+
+IMPL('impl<State, B> Call<State, B>', raw='''
+    /// representation invariant of every call
+    pub open spec fn wf(&self) -> bool {
+        &&& self.request.wf()
+        &&& self.state.writer.wf()
+        &&& (self.state.reader matches Some(r) ==> reader_wf(r))
+        &&& self.request.headers.view().len() + (if self.analyzed { 0int } else { 2 }) <= crate::client::MAX_EXTRA_HEADERS
+        &&& self.request.unset.view().len() <= 3
+    }
+    /// C02's quantifier: the request can name its host (absolute URI, or an explicit Host header)
+    pub open spec fn has_host_source(&self) -> bool {
+        self.request.eff_uri().spec_host() is Some || first_value(self.request.eff(), lit("host")) is Some
+    }
+    /// everything except analysis results is unchanged
+    pub open spec fn same_but_analysis(&self, post: &Self) -> bool {
+        &&& self.request.same_but_added(&post.request)
+        &&& post.state.phase == self.state.phase && post.state.reader == self.state.reader
+        &&& post.state.skip_method_body_check == self.state.skip_method_body_check && post.state.stop_on_chunk_boundary == self.state.stop_on_chunk_boundary
+    }
+    /// C02 / C17: the effect of request analysis
+    pub open spec fn post_analyze(pre: &Self, post: &Self, r: Result<(), Error>) -> bool {
+        if pre.analyzed { r is Ok && *post == *pre } else {
+            match spec_analyze(pre.request.request.spec_method(), pre.request.request.spec_version(), pre.request.eff(), pre.state.writer, pre.state.skip_method_body_check) {
+                Err(e) => r == Err::<(), Error>(e) && *post == *pre,
+                Ok(info) => {
+                    let uri_host = pre.request.eff_uri().spec_host();
+                    if !info.req_host_header && uri_host is Some && !valid_value(uri_host->Some_0) { r is Err && r->Err_0 is BadHeader && *post == *pre }
+                    else {
+                        &&& r is Ok && post.analyzed && pre.same_but_analysis(post) && post.state.writer == info.body_mode
+                        &&& if !info.req_body_header && !(info.body_mode.mode is None) {
+                                // the framing header the body writer will actually use is appended after it
+                                exists|fh: Hdr| #[trigger] is_framing_hdr(fh, info.body_mode.mode) && post.request.added() == pre.request.added() + host_part(uri_host, info) + seq![fh]
+                            } else { post.request.added() == pre.request.added() + host_part(uri_host, info) }
+                    }
+                }
+            }
+        }
+    }
+''')
+FN('new', props=['C09'], ret='r',
+   ensures=[('aux.Call.new', '''r is Ok && r->Ok_0.request.request.same_head(&request) && r->Ok_0.request.request.spec_body() == Some(request.spec_body())
+            && r->Ok_0.request.uri is None && r->Ok_0.request.headers.view().len() == 0 && r->Ok_0.request.unset.view().len() == 0
+            && !r->Ok_0.analyzed && r->Ok_0.state.phase == Phase::SendLine && r->Ok_0.state.writer == default_body_mode && r->Ok_0.state.reader is None
+            && !r->Ok_0.state.skip_method_body_check && !r->Ok_0.state.stop_on_chunk_boundary''')])
+FN('analyze_request', props=['C02', 'C17', 'C09'], ret='r',
+   requires=[('aux.analyze_request.wf', 'old(self).wf()')],
+   ensures=[
+       ('C17.analysis_exact_and_not_cached_on_error', 'Self::post_analyze(old(self), final(self), r)'),
+       ('aux.analyze_request.wf', 'final(self).wf()'),
+   ],
+   head='broadcast use axiom_key_val_bytes; proof { axiom_literals(); }',
+   rewrites=[
+       ('N5', '.map_err(|e| Error::BadHeader(e.to_string()))?', '.map_err(|e: crate::http::InvalidHeaderValue| -> (e2: Error) ensures e2 is BadHeader { bad_header_value(e) })?'),
+   ],
+   before=[('self.state.writer = info.body_mode;', '''proof {
+            let uri_host = old(self).request.eff_uri().spec_host();
+            if !info.req_body_header && !(info.body_mode.mode is None) {
+                let fh = self.request.added().last();
+                assert(is_framing_hdr(fh, info.body_mode.mode));
+                assert(self.request.added() =~= old(self).request.added() + host_part(uri_host, info) + seq![fh]);
+            } else {
+                assert(self.request.added() =~= old(self).request.added() + host_part(uri_host, info));
+            }
+        }''')],
+   )
+FN('do_into_receive', props=['C09'], ret='r',
+   ensures=[('C09.into_receive_iff_body_finished', '''if self.state.writer.ended {
+                r is Ok && r->Ok_0.request == self.request && r->Ok_0.analyzed == self.analyzed && r->Ok_0.state.phase == Phase::RecvResponse
+                && r->Ok_0.state.writer == self.state.writer && r->Ok_0.state.reader == self.state.reader
+                && r->Ok_0.state.skip_method_body_check == self.state.skip_method_body_check && r->Ok_0.state.stop_on_chunk_boundary == self.state.stop_on_chunk_boundary
+            } else { r == Err::<Call<RecvResponse, B>, Error>(Error::UnfinishedRequest) }''')])
+FN('amended', props=['C09'], ret='r', ensures=[('aux.Call.amended', '*r == self.request')])
+FN('amended_mut', props=['C09', 'C13', 'C16'], ret='r',
+   ensures=[('aux.Call.amended_mut', '*r == old(self).request && *final(r) == final(self).request && final(self).analyzed == old(self).analyzed && final(self).state == old(self).state')])
+FN('body_mode', props=['C06'], ret='r',
+   ensures=[('C06.body_mode', '''match self.state.reader { Some(BodyReader::NoBody) => r == BodyMode::NoBody, Some(BodyReader::LengthDelimited(v)) => r == BodyMode::LengthDelimited(v),
+            Some(BodyReader::Chunked(_)) => r == BodyMode::Chunked, Some(BodyReader::CloseDelimited) => r == BodyMode::CloseDelimited, None => r == BodyMode::Chunked }''')],
+   rewrites=[('N5', '.map(|r| r.body_mode())', '.map(|r: BodyReader| -> (m: BodyMode) ensures m == (match r { BodyReader::NoBody => BodyMode::NoBody, BodyReader::LengthDelimited(v) => BodyMode::LengthDelimited(v), BodyReader::Chunked(_) => BodyMode::Chunked, BodyReader::CloseDelimited => BodyMode::CloseDelimited }) { r.body_mode() })')])
+END()
+
+IMPL('impl BodyState')
+FN('need_response_body', props=['C06', 'C09'], ret='r',
+   ensures=[('C06.need_body', 'r == !(self.reader == Some(BodyReader::NoBody) || self.reader == Some(BodyReader::LengthDelimited(0)))')])
+END()
